@@ -21,6 +21,9 @@ SIM_RULE = ("cases = fixed regression cases (the witnesses of findings F7-F10, F
             "and the extracted Coq model of the simulator with that tape: the returned traces (time, side, event, machine, padding/bypass/replace flags) and the trace-derived "
             "pps limit must be equal line by line. %s Non-trivial = the trace contains padding, blocking or timer events; distinct = distinct wire encodings.")
 
+# /repo commit the development was last validated against (see vcheck.repo_drift)
+PINNED_REPO_HEAD = "623cd5cf78b8f9b91772e7577baf06e9615e4078"
+
 PROPS = {
     "C14": {
         "sub": "sim",
